@@ -60,6 +60,7 @@ type step struct {
 	Logger int
 	Opts   []step // for new: options
 	Times  int    // for set: the call is made this many times in a row (0/1: once): counters must not wrap into an old state
+	Skip   int    // for withskip: the count handed to WithSkip (the library keeps one child per count and hands it out again)
 }
 
 func (s step) String() string {
@@ -72,6 +73,8 @@ func (s step) String() string {
 		return fmt.Sprintf("With%sMode%v", s.Op, s.Bools)
 	case "with":
 		return fmt.Sprintf("L%d.With%sMode%v", s.Logger, s.Op, s.Bools)
+	case "withskip":
+		return fmt.Sprintf("L%d.WithSkip(%d)", s.Logger, s.Skip)
 	}
 	return fmt.Sprintf("L%d.Set%sMode%v", s.Logger, s.Op, s.Bools)
 }
@@ -81,11 +84,12 @@ type world struct {
 	states  []state
 	log     *vlib.EventLog
 	w       vlib.Writer
+	skipKid map[[2]int]int // (logger, skip count) -> index of the child WithSkip handed out
 }
 
 func newWorld() *world {
 	_ = slog.RegisterLevel(slog.Level(41), "plainforty") // registered, no colours, no tags
-	wd := &world{log: vlib.NewEventLog()}
+	wd := &world{log: vlib.NewEventLog(), skipKid: map[[2]int]int{}}
 	wd.w = vlib.NewRec(wd.log, 1, 0)
 	root := slog.New("root")
 	wd.add(root, stColor)
@@ -198,6 +202,17 @@ func (wd *world) exec(t vlib.TB, s step, hist func() string) {
 			st = transition(st, o.Op, o.Bools)
 		}
 		wd.add(wd.loggers[s.Logger].New(args...), st)
+	case "withskip":
+		// a child obtained through another builder: it starts in its parent's format; asking for it again hands out
+		// the same child, whose format is its own business by then
+		child := wd.loggers[s.Logger].WithSkip(s.Skip)
+		if idx, ok := wd.skipKid[[2]int{s.Logger, s.Skip}]; !ok {
+			wd.add(child, wd.states[s.Logger])
+			wd.skipKid[[2]int{s.Logger, s.Skip}] = len(wd.loggers) - 1
+		} else if slog.Logger(child) != wd.loggers[idx] {
+			wd.add(child, wd.states[s.Logger]) // another child (C10's business): it is a new logger then
+			wd.skipKid[[2]int{s.Logger, s.Skip}] = len(wd.loggers) - 1
+		}
 	case "probe":
 		wd.probe(t, s.Logger, hist)
 	}
@@ -213,9 +228,12 @@ func genBools() *rapid.Generator[[]bool] {
 	)
 }
 
+var caseSerial int
+
 func TestGeneratedHistories(t *testing.T) {
 	rapid.Check(t, func(t *rapid.T) {
 		defer vlib.Canon()()
+		caseSerial++
 		wd := newWorld()
 		var hist []string
 		h := func() string { return strings.Join(hist, "; ") }
@@ -243,6 +261,9 @@ func TestGeneratedHistories(t *testing.T) {
 				for j := rapid.IntRange(0, 3).Draw(t, "nopts"); j > 0; j-- {
 					s.Opts = append(s.Opts, step{Kind: "opt", Op: rapid.SampledFrom([]string{"json", "color"}).Draw(t, "optop"), Bools: genBools().Draw(t, "optbools")})
 				}
+			case k == 7 && len(wd.loggers) < 7:
+				s.Kind = "withskip"
+				s.Skip = 1000*(caseSerial%1000) + rapid.IntRange(1, 2).Draw(t, "skip") // counts of its own per case: the default logger's subtree outlives a case
 			default:
 				s.Kind = "probe"
 			}
